@@ -105,6 +105,9 @@ type shaper struct {
 	r      *rand.Rand
 	lf     lifts
 	labelN int
+	// leaf rules whose whole body is a class or a one-rune literal: references to them are drawn as
+	// alternatives of mergeable choices (inlined, then merged with DIFFERENT neighbours at every site)
+	termLeaves []string
 }
 
 const plainRunes = "abcxyzABXZ019 _+-*(),;é"
@@ -140,6 +143,9 @@ func (s *shaper) class() *ast.CharClassMatcher {
 
 func (s *shaper) classWith(inverted, fold bool) *ast.CharClassMatcher {
 	n := 1 + s.r.Intn(3)
+	if s.r.Intn(3) == 0 {
+		n = 3 + s.r.Intn(6) // member lists whose backing arrays have spare capacity, duplicates
+	}
 	var items []pvpeg.ClassItem
 	for i := 0; i < n; i++ {
 		switch x := s.r.Intn(10); {
@@ -186,6 +192,10 @@ func (s *shaper) mergeChoice() ast.Expression {
 		inv = true
 	}
 	for i := 0; i < n; i++ {
+		if len(s.termLeaves) > 0 && s.r.Intn(4) == 0 {
+			e.Alternatives = append(e.Alternatives, ref(s.termLeaves[s.r.Intn(len(s.termLeaves))]))
+			continue
+		}
 		switch x := s.r.Intn(10); {
 		case x < 5:
 			l := s.lit1()
@@ -349,7 +359,16 @@ func (s *shaper) shape(g *ast.Grammar) (lone string) {
 			continue
 		}
 		rule := ast.NewRule(ast.Pos{}, ast.NewIdentifier(ast.Pos{}, nm))
-		rule.Expr = s.leafBody(leaves)
+		if s.r.Intn(3) == 0 {
+			if s.r.Intn(3) == 0 {
+				rule.Expr = s.lit1()
+			} else {
+				rule.Expr = s.classWith(false, s.r.Intn(5) == 0)
+			}
+			s.termLeaves = append(s.termLeaves, nm)
+		} else {
+			rule.Expr = s.leafBody(leaves)
+		}
 		if s.r.Intn(5) == 0 {
 			rule.DisplayName = ast.NewStringLit(ast.Pos{}, `"a leaf"`)
 		}
